@@ -5,6 +5,11 @@ package sim
 
 import (
 	"fmt"
+	"strings"
+	"sync"
+
+	pbindex "github.com/streamingfast/substreams/pb/sf/substreams/index/v1"
+	"google.golang.org/protobuf/proto"
 
 	"github.com/streamingfast/bstream"
 )
@@ -183,3 +188,209 @@ func GenC16(seed uint64) *Scenario {
 // keep the import used even when a family does not need it
 var _ = bstream.GetProtocolFirstStreamableBlock
 var _ = fmt.Sprintf
+
+// ---- C04: delivery order / completeness / cursors / resumption ----
+
+func GenC04(seed uint64) *Scenario {
+	r := NewRng(seed, "gen", "C04")
+	b := genBase(r, GenOpts{WantStores: r.Range(0, 2), MinMods: 2, MaxMods: 6, NoIndex: r.Chance(3, 4)}, 0)
+	s := &Scenario{Prop: "C04", Seed: seed, Family: "delivery_and_resume", Pkg: b.pkg, Head: b.head, ConfDepth: uint64(r.Range(1, 4))}
+	genPolicy(r, s)
+	q := genDeepReq(r, b, b.pkg.Output, 0, 0, 4)
+	if r.Chance(1, 2) {
+		q = genReq(r, b, b.pkg, b.pkg.Output, 0)
+	}
+	// most of the range final so that final cursors exist
+	if q.Final != 0 && q.Final < q.Stop && r.Chance(2, 3) {
+		q.Final = q.Stop + uint64(r.Intn(int(b.seg)))
+	}
+	first := HistItem{Req: q}
+	switch r.Intn(4) {
+	case 0:
+		first.Req.DisconnectAt = r.Range(1, 12)
+	case 1:
+		s.Family = "failure_then_nothing"
+		anc := b.pkg.Ancestors(q.Output)
+		var cands []*ModDef
+		for _, m := range b.pkg.Mods {
+			if anc[m.Spec.Name] && m.Spec.Kind != "index" {
+				cands = append(cands, m)
+			}
+		}
+		m := cands[r.Intn(len(cands))]
+		m.Spec.FailAt = int64(uint64(q.Start) + uint64(r.Intn(int(q.Stop-uint64(q.Start)))))
+		m.Spec.FailMode = r.Intn(2)
+	}
+	s.History = append(s.History, first)
+	if s.Family != "failure_then_nothing" {
+		n := r.Range(1, 2)
+		for i := 0; i < n; i++ {
+			h := HistItem{Req: q, ResumeOf: 1, ResumeK: r.Intn(1000), Fresh: r.Chance(1, 3)}
+			h.Req.DisconnectAt = 0
+			h.Req.DebugSnap = nil
+			h.Req.Workers = uint64(r.Range(1, 4))
+			s.History = append(s.History, h)
+		}
+	}
+	fixHead(s)
+	return s
+}
+
+type c04Checker struct {
+	inner *stratChecker
+}
+
+func (c *c04Checker) Setup(x *Exec) *Violation {
+	c.inner = &stratChecker{prop: "C04", fileInv: false}
+	return c.inner.Setup(x)
+}
+
+func (c *c04Checker) AfterRequest(x *Exec, idx int, h *HistItem, res *RunResult) *Violation {
+	if res.Session == nil && res.Err == nil && len(res.Msgs) == 0 && h.ResumeOf > 0 {
+		return nil // nothing eligible to resume from
+	}
+	if v := c.inner.AfterRequest(x, idx, h, res); v != nil {
+		return v
+	}
+	if h.ResumeOf == 0 {
+		return nil
+	}
+	from, ok := x.ResumedFrom[idx]
+	if !ok {
+		return nil
+	}
+	if res.Session != nil && res.Session.ResolvedStartBlock != from.Num+1 {
+		return viol("C04", "resume_wrong_start", "resumed from the cursor of final block %d but the stream starts at %d", from.Num, res.Session.ResolvedStartBlock)
+	}
+	// the resumed stream equals what followed that message in the original stream
+	orig := x.Results[h.ResumeOf-1].Data()
+	var tail []Msg
+	seen := false
+	for _, m := range orig {
+		if seen {
+			tail = append(tail, m)
+		}
+		if m.Num == from.Num && m.ID == from.ID {
+			seen = true
+		}
+	}
+	got := res.Data()
+	gi := map[uint64]Msg{}
+	for _, m := range got {
+		gi[m.Num] = m
+	}
+	for _, om := range tail {
+		gm, ok := gi[om.Num]
+		if !ok {
+			// empty blocks may be omitted only below the hand-off of a production request
+			if len(om.Payload) == 0 && h.Req.Prod && res.Session != nil && om.Num < res.Session.LinearHandoffBlock {
+				continue
+			}
+			return viol("C04", "resume_missing", "original stream delivered block %d after the cursor, the resumed stream does not", om.Num)
+		}
+		if gm.ID != om.ID || string(gm.Payload) != string(om.Payload) {
+			return viol("C04", "resume_differs", "block %d: original (%s,%q), resumed (%s,%q)", om.Num, om.ID, om.Payload, gm.ID, gm.Payload)
+		}
+	}
+	x.Probe("resumed_stream_compared")
+	if h.Fresh {
+		x.Probe("resumed_on_empty_store")
+	}
+	x.Rep.NonTrivial = true
+	return nil
+}
+
+func (c *c04Checker) Finish(x *Exec) *Violation { return nil }
+
+// ---- C15: block-index filtering never changes results ----
+
+func GenC15(seed uint64) *Scenario {
+	r := NewRng(seed, "gen", "C15")
+	b := genBase(r, GenOpts{WantIndex: true, WantStores: r.Range(0, 2), MinMods: 3, MaxMods: 7, FilterPm: 750}, 0)
+	s := &Scenario{Prop: "C15", Seed: seed, Family: "index_present_absent", Pkg: b.pkg, Head: b.head, ConfDepth: uint64(r.Range(1, 4))}
+	genPolicy(r, s)
+	nh := r.Range(1, 2)
+	for i := 0; i <= nh; i++ {
+		h := HistItem{Req: genDeepReq(r, b, b.pkg.Output, 0, 1, 5)}
+		if i < nh {
+			switch r.Intn(4) {
+			case 0:
+				h.EvictN, h.EvictK = 1000, "index" // all index files gone, outputs stay
+			case 1:
+				h.EvictN, h.EvictK = 500, "index" // index present for some segments only
+			case 2:
+				h.EvictN, h.EvictK = []int{300, 700}[r.Intn(2)], []string{"output", "notoutput", "any"}[r.Intn(3)]
+			}
+			if r.Chance(1, 5) {
+				h.Req.CrashAtOp = r.Range(5, 150)
+			}
+		}
+		s.History = append(s.History, h)
+	}
+	fixHead(s)
+	return s
+}
+
+type c15Checker struct {
+	inner *stratChecker
+	mu    sync.Mutex
+	execs []ExecEvent
+}
+
+func (c *c15Checker) Setup(x *Exec) *Violation {
+	c.inner = &stratChecker{prop: "C15", fileInv: true}
+	x.Env.RecordExecs()
+	return c.inner.Setup(x)
+}
+
+func (c *c15Checker) AfterRequest(x *Exec, idx int, h *HistItem, res *RunResult) *Violation {
+	execs := x.Env.TakeExecs()
+	if v := c.inner.AfterRequest(x, idx, h, res); v != nil {
+		return v
+	}
+	pkg := x.S.Pkg
+	ref, err := x.Ref(pkg, h.Req.Output, h.Req.SegSize)
+	if err != nil {
+		return nil
+	}
+	filtered := map[string]*FilterDef{}
+	for _, m := range pkg.Mods {
+		if m.Filter != nil {
+			filtered[m.Spec.Name] = m.Filter
+		}
+	}
+	// seam check: a filtered module is never run on a block its filter rejects
+	for _, ev := range execs {
+		f := filtered[ev.Module]
+		if f == nil {
+			continue
+		}
+		rb := ref.ByID[ev.ID]
+		if rb == nil || rb.Err != nil {
+			continue
+		}
+		raw, ok := rb.Maps[f.IndexMod]
+		keys := map[string]bool{}
+		if ok {
+			k := &pbindex.Keys{}
+			if err := proto.Unmarshal(raw, k); err == nil {
+				for _, kk := range k.Keys {
+					keys[kk] = true
+				}
+			}
+		}
+		if !f.Expr.Eval(keys) {
+			return viol("C15", "ran_on_rejected_block", "module %s (filter %s over %s) was executed on block %d whose keys are %v", ev.Module, f.Query, f.IndexMod, ev.Block, sortedKeys(keys))
+		}
+		x.Probe("filtered_module_executions_checked")
+	}
+	for _, k := range x.Disk.Keys() {
+		if strings.HasSuffix(k, ".index") {
+			x.Probe("index_files_present_after_request")
+			break
+		}
+	}
+	return nil
+}
+
+func (c *c15Checker) Finish(x *Exec) *Violation { return nil }
